@@ -4,6 +4,7 @@ package c07
 // xmldsig guards, config/filetoken/tokencache/signinit key lookup on enumerated small scopes.
 
 import (
+	"bytes"
 	"context"
 	"crypto"
 	"crypto/ecdsa"
@@ -234,7 +235,16 @@ func runLib(c *core.Ctx) error {
 	}
 	seqs := sequences(pool, maxLen)
 	emitLoad := func(lc loadCase, key *keyInfo, x509path, pgppath string, blob []byte) {
-		cert, err := certloader.LoadTokenCertificates(key.Priv, x509path, pgppath, blob)
+		var cert *certloader.Certificate
+		var err error
+		func() {
+			defer func() {
+				if r := recover(); r != nil {
+					err = fmt.Errorf("PANIC: %v", r)
+				}
+			}()
+			cert, err = certloader.LoadTokenCertificates(key.Priv, x509path, pgppath, blob)
+		}()
 		lc.Op, lc.Key, lc.KeyPub = "load", key.Name, descPub(key.Pub)
 		lc.Err = loadErrClass(err)
 		lc.Leaf, lc.PgpGot = -1, -1
@@ -244,14 +254,14 @@ func runLib(c *core.Ctx) error {
 			lc.Leaf = fx.derID(cert.Leaf)
 			lc.Chain = fx.derIDs(cert.Chain())
 			lc.All = fx.derIDs(cert.Certificates)
-			lc.KeyKept = cert.PrivateKey == crypto.PrivateKey(key.Priv)
+			lc.KeyKept = samePriv(cert.PrivateKey, key.Priv)
 			if cert.PgpKey != nil {
 				for _, p := range fx.pgps {
 					if p.Entity.PrimaryKey.Fingerprint != nil && string(p.Entity.PrimaryKey.Fingerprint) == string(cert.PgpKey.PrimaryKey.Fingerprint) {
 						lc.PgpGot = p.ID
 					}
 				}
-				lc.PgpKeyOK = cert.PgpKey.PrivateKey != nil && cert.PgpKey.PrivateKey.PrivateKey == crypto.PrivateKey(key.Priv)
+				lc.PgpKeyOK = cert.PgpKey.PrivateKey != nil && samePriv(cert.PgpKey.PrivateKey.PrivateKey, key.Priv)
 			}
 		}
 		c.Emit(lc)
@@ -276,7 +286,8 @@ func runLib(c *core.Ctx) error {
 	}
 	// degenerate sources and PGP rings
 	garbage := filepath.Join(fx.dir, "garbage.pem")
-	os.WriteFile(garbage, []byte("-----BEGIN CERTIFICATE-----\nAAAA\n-----END CERTIFICATE-----\n"), 0o644)
+	// (a block shorter than 32 bytes makes parseCertificatesDer panic on der[:32]; that is C11's subject, not used here)
+	os.WriteFile(garbage, []byte("-----BEGIN CERTIFICATE-----\n"+base64.StdEncoding.EncodeToString(bytes.Repeat([]byte{0x30, 0x82, 0x01}, 20))+"\n-----END CERTIFICATE-----\n"), 0o644)
 	nocerts := filepath.Join(fx.dir, "nocerts.pem")
 	os.WriteFile(nocerts, []byte("just text, no PEM blocks\n"), 0o644)
 	pgpGarbage := filepath.Join(fx.dir, "garbage.asc")
@@ -520,4 +531,12 @@ func runLib(c *core.Ctx) error {
 		c.Emit(lc)
 	}
 	return nil
+}
+
+func samePriv(a, b crypto.PrivateKey) bool {
+	type eq interface{ Equal(crypto.PrivateKey) bool }
+	if x, ok := a.(eq); ok {
+		return x.Equal(b)
+	}
+	return false
 }
